@@ -278,6 +278,13 @@ pub fn run(tier: Tier, seed: u64) -> i32 {
                     }
                 }
             }
+            // the degenerate answers and the VALUE the all-zero answer produced, fed back as an answer: a site that keeps an
+            // older value when the draw "looks weak" maps both the weak draw and the older value itself to that older value
+            scripts.push(vec![0u8; w]);
+            scripts.push(vec![0xFFu8; w]);
+            if base.len() == w {
+                scripts.push(base.clone());
+            }
             scripts.sort();
             scripts.dedup();
             for sc in &scripts {
@@ -301,13 +308,32 @@ pub fn run(tier: Tier, seed: u64) -> i32 {
                 }
             }
         }
-        for sc in [vec![0xFFu8; w]] {
-            if let Err(m) = call_site(site, &sc) {
+        match call_site(site, &vec![0xFFu8; w]) {
+            Err(m) => {
                 if site.direct {
                     viol(&report, site.name, "panic", json!({"script": "all-0xFF"}), m);
                 }
             }
-            evals += 1;
+            Ok((ff, _, _)) => {
+                // degenerate RNG answers are still answers: all-zero, all-ones and a counter pattern must give
+                // three different values (a "keep the old value if the draw looks weak" shortcut shows here)
+                if !base.is_empty() && (ff == base || ff == p1.0 || base == p1.0) {
+                    viol(&report, site.name, "degenerate-draw-not-used", json!({"all_zero": hex(&base), "all_ones": hex(&ff), "counter": hex(&p1.0)}), "the values produced for an all-zero, an all-ones and a counter RNG answer are not pairwise different".into());
+                }
+            }
+        }
+        evals += 1;
+        // sites that REPLACE an earlier value (challenge refresh): an all-zero / all-ones answer must still replace it
+        if site.name.contains("refresh after") {
+            for sc in [vec![0u8; w], vec![0xFFu8; w]] {
+                if let (Ok((v1, _, _)), Ok((v2, _, _))) = (call_site(site, &sc), call_site(site, &counter_script(9, w))) {
+                    evals += 2;
+                    // same setup both times, so the value BEFORE the refresh is the same; two different answers must give two different values
+                    if v1 == v2 {
+                        viol(&report, site.name, "degenerate-draw-not-used", json!({"script": hex(&sc), "value": hex(&v1)}), "the refreshed challenge is the same for a degenerate and for a counter RNG answer".into());
+                    }
+                }
+            }
         }
         report.count("sites_checked_under_script", 1);
     }
@@ -335,7 +361,7 @@ pub fn run(tier: Tier, seed: u64) -> i32 {
 
     // ---- matrix card digits (rejection sampling: scripted prefix then deterministic tail) ----
     let mut card_cases = 0u64;
-    let shapes = [(4u8, 5u8, 2u8), (1, 1, 1), (8, 10, 2), (15, 17, 1)];
+    let shapes = [(4u8, 5u8, 2u8), (1, 1, 1), (8, 10, 2), (15, 17, 1), (10, 10, 3), (13, 17, 5), (16, 15, 8), (3, 85, 255)];
     for &(w, h, d) in &shapes {
         let cells = w as usize * h as usize * d as usize;
         let mut cell_values: Vec<std::collections::BTreeSet<u8>> = vec![Default::default(); cells];
@@ -368,6 +394,24 @@ pub fn run(tier: Tier, seed: u64) -> i32 {
                     prev.push(card.data().to_vec());
                 }
                 Err(m) => viol(&report, "matrix card digits", "panic", json!({"w": w, "h": h, "d": d}), m),
+            }
+        }
+        // no digit position is a copy of ANOTHER position under every script (block-wise generation that re-uses a block)
+        if cells >= 2 && prev.len() >= 8 {
+            // signature of a position = its digits over all scripts; equal signatures = one is a copy of the other
+            let mut sigs: std::collections::HashMap<Vec<u8>, usize> = Default::default();
+            let mut dup: Vec<(usize, usize)> = vec![];
+            for i in 0..cells {
+                let sig: Vec<u8> = prev.iter().filter(|c| c.len() == cells).map(|c| c[i]).collect();
+                if let Some(&j) = sigs.get(&sig) {
+                    dup.push((j, i));
+                } else {
+                    sigs.insert(sig, i);
+                }
+            }
+            // with >= 29 scripts the chance that two independent positions agree everywhere is 10^-29 per pair
+            if !dup.is_empty() && prev.len() >= 24 {
+                viol(&report, "matrix card digits", "position-copies-another-position", json!({"w": w, "h": h, "d": d, "pairs": &dup[..dup.len().min(8)], "positions_affected": dup.len()}), format!("{} digit position(s) carry exactly the digits of an earlier position under every one of {} RNG scripts (e.g. positions {:?})", dup.len(), prev.len(), dup[0]));
             }
         }
         // no digit position is a copy of its neighbour under every script
